@@ -71,6 +71,22 @@ def loop (f : β → σ → Res ε σ) : List β → σ → Res ε σ
   | .err e => .err e
   | .panic => .panic
 
+/-- the loop `for i in lo..hi { body }`: like `loop` over `lo, lo+1, …`, without materialising the range (the count may be an
+    untrusted `usize`; the body's first `err` ends the loop) -/
+def loopRange (f : Nat → σ → Res ε σ) : Nat → Nat → σ → Res ε σ
+  | 0, _, s => .ok s
+  | n + 1, i, s =>
+    match f i s with
+    | .ok s' => loopRange f n (i + 1) s'
+    | .err e => .err e
+    | .panic => .panic
+
+@[inline] def forRange (lo hi : Nat) (s : σ) (f : Nat → σ → Res ε σ) (k : σ → Res ε γ) : Res ε γ :=
+  match loopRange f (hi - lo) lo s with
+  | .ok s' => k s'
+  | .err e => .err e
+  | .panic => .panic
+
 def noPanic : Res ε α → Bool
   | .panic => false
   | _ => true
